@@ -2041,9 +2041,8 @@ func (r *Resolvable) walkString(s *String, value *astjson.Value) bool {
 			content := value.GetStringBytes()
 			content = bytes.ReplaceAll(content, []byte(`\"`), []byte(`"`))
 			if !gjson.ValidBytes(content) {
-				r.printBytes(quote)
-				r.printBytes(content)
-				r.printBytes(quote)
+				// not JSON after all: render the string itself, properly escaped
+				r.renderScalarFieldValue(value, s.Nullable)
 			} else {
 				r.renderScalarFieldBytes(content, s.Nullable)
 			}
